@@ -514,3 +514,32 @@ def nonzero_on_paths(mod, f, edge, maxpaths=64):
                 raise AnalysisBroken('%s: switch on a path from an early exit, not modelled' % f.name)
     walk(b0, t0, {}, {}, [])
     return results
+
+
+# ------------------------------------------------------------------ constant-length fills of arrays
+def array_fills(mod):
+    """[(func, insn, N, elem size, length)] for every memset/memcpy/memmove with a constant length whose destination is the first element of an array [N x T]"""
+    out = []
+    for fn, f in sorted(mod.funcs.items()):
+        for i in f.all_insns():
+            if i.op != 'call' or not re.match(r'^(llvm\.)?mem(set|cpy|move)', i.callee) or len(i.args) < 3 or not re.match(r'^\d+$', i.args[2][1]):
+                continue
+            v = i.args[0][1]
+            for _ in range(4):
+                d = f.defs.get(v)
+                if d is None:
+                    break
+                if d.op == 'bitcast':
+                    v = d.ops[0]
+                    continue
+                if d.op == 'getelementptr':
+                    m = re.match(r'^\[(\d+) x (.+)\]$', d.extra.get('basety', '').strip())
+                    idx = [x.split()[-1] for x in d.extra.get('idx', [])]
+                    if m and idx == ['0', '0']:
+                        try:
+                            es = mod.types.size_align(m.group(2))[0]
+                        except Exception:
+                            break
+                        out.append((f, i, int(m.group(1)), es, int(i.args[2][1])))
+                break
+    return out
